@@ -90,7 +90,11 @@ func main() {
 		to, _ := strconv.Atoi(os.Args[4])
 		for i := from; i < to; i++ {
 			seed := driver.CaseSeed(1, prop, i)
-			r := driver.Specs[prop].Run(prop, seed, i, "quick", "/tmp", nil)
+			tier := "quick"
+			if os.Getenv("VERIF_TIER") == "thorough" {
+				tier = "thorough"
+			}
+			r := driver.Specs[prop].Run(prop, seed, i, tier, "/tmp", nil)
 			if os.Getenv("VERIF_VERBOSE") != "" && r.Sample != nil {
 				fmt.Printf("---- case %d seed %#x obs %v\n", i, seed, r.Obs)
 				for _, o := range r.Sample.Ops {
